@@ -217,8 +217,8 @@ func attribute(stack string) (lib bool, frame string) {
 		switch {
 		case strings.HasPrefix(l, "github.com/gorilla/websocket."):
 			f := l
-			if i := strings.Index(f, "("); i > 0 {
-				f = f[:i]
+			if i := strings.LastIndex(f, "("); i > 0 {
+				f = f[:i] // drop the argument list
 			}
 			if i := strings.Index(f, " "); i > 0 {
 				f = f[:i]
